@@ -116,6 +116,12 @@ inductive Ret where
   | err (c : Code)
   deriving DecidableEq, Repr
 
+/-- Pure assignments the control flow depends on. -/
+inductive RegOp where
+  | saveExisted        -- `file_exists = <last boolean op>`
+  | clearBase          -- `baseline_content_for_diff = ""` (in the handler of a failed read)
+  deriving DecidableEq, Repr
+
 inductive Stmt where
   | skip
   | op (o : Op)
@@ -125,8 +131,8 @@ inductive Stmt where
   | finally_ (body fin : Stmt)      -- `with` / `finally`
   | ret (r : Ret)
   | raise
-  | saveExisted                      -- `file_exists = <last boolean op>`
-  | scope (body : Stmt)              -- inlined callee whose error result makes the caller exit with an error
+  | set (a : RegOp)                  -- assignment to a register (pure)
+  | scope (body onErr : Stmt)        -- inlined callee; `onErr` is what the caller does with an error result
   deriving Repr
 
 /-- A block of statements (what the translator prints for a Python suite). -/
@@ -141,7 +147,7 @@ inductive Prog where
   | raise
   | op (o : Op) (k kf : Prog)
   | branch (c : Cond) (a b : Prog)
-  | saveExisted (k : Prog)
+  | set (a : RegOp) (k : Prog)
   deriving Repr
 
 /-- Static parameters of a call. -/
@@ -173,9 +179,9 @@ def compile (P : Params) : Stmt → Prog → Prog → (Ret → Prog) → Prog
       compile P b (compile P f k kr kret) (compile P f kr kr kret) (fun r => compile P f (kret r) kr kret)
   | .ret r, _, _, kret => kret r
   | .raise, _, kr, _ => kr
-  | .saveExisted, k, _, _ => .saveExisted k
-  | .scope b, k, kr, kret =>
-      compile P b k kr (fun r => match r with | .ok => k | .err c => kret (.err c))
+  | .set a, k, _, _ => .set a k
+  | .scope b e, k, kr, kret =>
+      compile P b k kr (fun r => match r with | .ok => k | .err _ => compile P e k kr kret)
 
 /-- Whole entry point: falling off the end is a success return; an uncaught exception escapes. -/
 def Stmt.toProg (s : Stmt) (P : Params) : Prog := compile P s (.ret .ok) .raise .ret
@@ -211,6 +217,10 @@ def locPath (c : Call) (r : Regs) : Loc → Option Path
   | .target => some c.target
   | .parent => some (parentOf c.target)
   | .temp => r.tmp
+
+def RegOp.apply : RegOp → Regs → Regs
+  | .saveExisted, r => { r with existed := r.last }
+  | .clearBase, r => { r with base := [] }
 
 def evalCond (H : Data → Hash) (c : Call) (r : Regs) : Cond → Bool
   | .last => r.last
@@ -420,7 +430,7 @@ def retResult (H : Data → Hash) (c : Call) (r : Regs) : Ret → Result
 def run (H : Data → Hash) (c : Call) (w : World) : Prog → St → Out
   | .ret r, s => ⟨retResult H c s.regs r, s⟩
   | .raise, s => ⟨.raised, s⟩
-  | .saveExisted k, s => run H c w k { s with regs := { s.regs with existed := s.regs.last } }
+  | .set a k, s => run H c w k { s with regs := a.apply s.regs }
   | .branch cnd a b, s => if evalCond H c s.regs cnd then run H c w a s else run H c w b s
   | .op o k kf, s =>
       if w.crashAt = some s.n then
@@ -461,7 +471,7 @@ structure Proc where
 /-- Resolve pure nodes until the next op or a terminal node. -/
 def settle (H : Data → Hash) (c : Call) : Prog → Regs → Prog × Regs
   | .branch cnd a b, r => if evalCond H c r cnd then settle H c a r else settle H c b r
-  | .saveExisted k, r => settle H c k { r with existed := r.last }
+  | .set a k, r => settle H c k (a.apply r)
   | p, r => (p, r)
 
 /-- One scheduler turn of a process: its next op, atomically (no injected faults). -/
